@@ -16,49 +16,80 @@ Lemma tie_staticChunkSizeGranular items chunks g :
   gen_staticChunkSizeGranular items chunks g = static_chunk_gran items chunks g.
 Proof. unfold gen_staticChunkSizeGranular, static_chunk_gran. rewrite tie_staticChunkSize. reflexivity. Qed.
 
-Lemma wf8 s : wf_kind (IK 8 s).   Proof. unfold wf_kind; simpl; lia. Qed.
-Lemma wf16 s : wf_kind (IK 16 s). Proof. unfold wf_kind; simpl; lia. Qed.
-Lemma wf32 s : wf_kind (IK 32 s). Proof. unfold wf_kind; simpl; lia. Qed.
-Lemma wf64 s : wf_kind (IK 64 s). Proof. unfold wf_kind; simpl; lia. Qed.
-#[global] Hint Resolve wf8 wf16 wf32 wf64 : wfk.
-
-(* fold the translator's wrap / wrap_s of width w back into castk, so that both sides speak one language *)
-Ltac fold_casts w :=
-  repeat match goal with
-  | |- context [wrap w ?x] => change (wrap w x) with (castk (IK w false) x)
-  | |- context [wrap_s w ?x] => change (wrap_s w x) with (castk (IK w true) x)
-  end.
-
-(* equality of two IntegerT-valued expressions that differ only by redundant re-narrowing *)
-Ltac strip_eq K :=
-  first [ reflexivity
-        | apply (castk_eq_of_eqk K); [auto with wfk|];
-          rewrite ?(castk_eqm K) by auto with wfk; first [reflexivity | apply eqk_refl2; ring] ].
-
-Ltac tie_mapper K w :=
-  intros;
-  cbv beta iota zeta delta [mapper acast wop wide ik_signed ik_w I8 U8 I16 U16 I32 U32 I64 U64 andb Z.leb Z.compare Pos.compare Pos.compare_cont];
-  fold_casts w;
-  repeat match goal with |- context [if ?c then _ else _] => destruct c eqn:? end;
-  try reflexivity; try congruence;
-  repeat match goal with |- (_, _) = (_, _) => f_equal end;
-  strip_eq K.
+Lemma acast_small k z : ik_signed k && (32 <=? ik_w k) = false -> acast k z = castk k z.
+Proof. unfold acast; intros ->; reflexivity. Qed.
+Lemma acast_big k z : ik_signed k && (32 <=? ik_w k) = true -> acast k z = z.
+Proof. unfold acast; intros ->; reflexivity. Qed.
+Lemma wrap_add_l w a b : 0 < w -> wrap w (wrap w a + b) = wrap w (a + b).
+Proof. intros Hw. apply (castk_add_l (IK w false)). exact Hw. Qed.
 
 Lemma tie_mapper_i8 n cs sc ti s e i : gen_mapper_i8 n cs sc ti s e i = mapper I8 n cs sc ti s e i.
-Proof. unfold gen_mapper_i8. tie_mapper (IK 8 true) 8. Qed.
+Proof.
+  unfold gen_mapper_i8, mapper.
+  rewrite !(acast_small I8) by reflexivity.
+  change (wop (wide I8)) with (fun z : Z => z). cbv beta.
+  change (castk I8) with (wrap_s 8).
+  destruct (i <? ti) eqn:E1; destruct (i + 1 =? n) eqn:E2; cbv zeta; rewrite ?wrap_add_l, ?wrap_wrap by lia; reflexivity.
+Qed.
 Lemma tie_mapper_u8 n cs sc ti s e i : gen_mapper_u8 n cs sc ti s e i = mapper U8 n cs sc ti s e i.
-Proof. unfold gen_mapper_u8. tie_mapper (IK 8 false) 8. Qed.
+Proof.
+  unfold gen_mapper_u8, mapper.
+  rewrite !(acast_small U8) by reflexivity.
+  change (wop (wide U8)) with (wrap 64). cbv beta.
+  change (castk U8) with (wrap 8).
+  destruct (i <? ti) eqn:E1; destruct (wrap 64 (i + 1) =? n) eqn:E2; cbv zeta; rewrite ?wrap_add_l, ?wrap_wrap by lia; reflexivity.
+Qed.
 Lemma tie_mapper_i16 n cs sc ti s e i : gen_mapper_i16 n cs sc ti s e i = mapper I16 n cs sc ti s e i.
-Proof. unfold gen_mapper_i16. tie_mapper (IK 16 true) 16. Qed.
+Proof.
+  unfold gen_mapper_i16, mapper.
+  rewrite !(acast_small I16) by reflexivity.
+  change (wop (wide I16)) with (fun z : Z => z). cbv beta.
+  change (castk I16) with (wrap_s 16).
+  destruct (i <? ti) eqn:E1; destruct (i + 1 =? n) eqn:E2; cbv zeta; rewrite ?wrap_add_l, ?wrap_wrap by lia; reflexivity.
+Qed.
 Lemma tie_mapper_u16 n cs sc ti s e i : gen_mapper_u16 n cs sc ti s e i = mapper U16 n cs sc ti s e i.
-Proof. unfold gen_mapper_u16. tie_mapper (IK 16 false) 16. Qed.
+Proof.
+  unfold gen_mapper_u16, mapper.
+  rewrite !(acast_small U16) by reflexivity.
+  change (wop (wide U16)) with (wrap 64). cbv beta.
+  change (castk U16) with (wrap 16).
+  destruct (i <? ti) eqn:E1; destruct (wrap 64 (i + 1) =? n) eqn:E2; cbv zeta; rewrite ?wrap_add_l, ?wrap_wrap by lia; reflexivity.
+Qed.
 Lemma tie_mapper_i32 n cs sc ti s e i : gen_mapper_i32 n cs sc ti s e i = mapper I32 n cs sc ti s e i.
-Proof. unfold gen_mapper_i32. tie_mapper (IK 32 true) 32. Qed.
+Proof.
+  unfold gen_mapper_i32, mapper.
+  rewrite !(acast_big I32) by reflexivity.
+  change (wop (wide I32)) with (fun z : Z => z). cbv beta.
+  change (castk I32) with (wrap_s 32).
+  destruct (i <? ti) eqn:E1; destruct (i + 1 =? n) eqn:E2; cbv zeta; rewrite ?wrap_add_l, ?wrap_wrap by lia; reflexivity.
+Qed.
 Lemma tie_mapper_u32 n cs sc ti s e i : gen_mapper_u32 n cs sc ti s e i = mapper U32 n cs sc ti s e i.
-Proof. unfold gen_mapper_u32. tie_mapper (IK 32 false) 32. Qed.
-Lemma tie_mapper_i64 n cs sc ti s e i : gen_mapper_i64 n cs sc ti s e i = mapper I64 n cs sc ti s e i.
-Proof. unfold gen_mapper_i64. tie_mapper (IK 64 true) 64. Qed.
-(* uint64: idx is already of the index type, so the source has no narrowing cast of idx; equal for idx in range *)
+Proof.
+  unfold gen_mapper_u32, mapper.
+  rewrite !(acast_small U32) by reflexivity.
+  change (wop (wide U32)) with (wrap 64). cbv beta.
+  change (castk U32) with (wrap 32).
+  destruct (i <? ti) eqn:E1; destruct (wrap 64 (i + 1) =? n) eqn:E2; cbv zeta; rewrite ?wrap_add_l, ?wrap_wrap by lia; reflexivity.
+Qed.
+Lemma tie_mapper_i64 n cs sc ti s e i : - 2 ^ 63 <= i < 2 ^ 63 -> - 2 ^ 63 <= ti < 2 ^ 63 -> - 2 ^ 63 <= i - ti < 2 ^ 63 ->
+  gen_mapper_i64 n cs sc ti s e i = mapper I64 n cs sc ti s e i.
+Proof.
+  intros Hi Hti Hd.
+  unfold gen_mapper_i64, mapper.
+  rewrite !(acast_big I64) by reflexivity.
+  change (wop (wide I64)) with (fun z : Z => z). cbv beta.
+  change (castk I64) with (wrap_s 64).
+  rewrite (wrap_s_small 64 i), (wrap_s_small 64 ti), (wrap_s_small 64 (i - ti)) by (simpl; lia).
+  destruct (i <? ti) eqn:E1; destruct (i + 1 =? n) eqn:E2; cbv zeta; reflexivity.
+Qed.
 Lemma tie_mapper_u64 n cs sc ti s e i : 0 <= i < 2 ^ 64 -> 0 <= ti < 2 ^ 64 ->
   gen_mapper_u64 n cs sc ti s e i = mapper U64 n cs sc ti s e i.
-Proof. unfold gen_mapper_u64. tie_mapper (IK 64 false) 64. Qed.
+Proof.
+  intros Hi Hti.
+  unfold gen_mapper_u64, mapper.
+  rewrite !(acast_small U64) by reflexivity.
+  change (wop (wide U64)) with (wrap 64). cbv beta.
+  change (castk U64) with (wrap 64).
+  rewrite (wrap_small 64 i), (wrap_small 64 ti) by lia.
+  destruct (i <? ti) eqn:E1; destruct (wrap 64 (i + 1) =? n) eqn:E2; cbv zeta; rewrite ?wrap_add_l, ?wrap_wrap by lia; reflexivity.
+Qed.
